@@ -33,6 +33,9 @@ def frame_text(fr: Dict[str, Any], op_id: str = "x"):
         d = {"type": "next", "id": op_id, "payload": {"data": fr["data"]}}
         if fr.get("ext"):
             d["payload"]["extensions"] = {"e": 1}
+        if fr.get("errs"):
+            # an execution result may carry field errors next to (partial) data: it is still a next frame with data
+            d["payload"]["errors"] = [{"message": "partial failure", "path": ["x", 0]}][: fr["errs"]] * fr["errs"]
         return J(d)
     if k == "ping":
         d = {"type": "ping"}
